@@ -4,9 +4,11 @@ Decided statically (E2 decision tables extracted by abstract interpretation of t
   R-C13-order-tables   compare_lt/le/gt/ge : Ordering -> bool tables, kernel called with (first, other)
   R-C13-algebra        table algebra: trichotomy, <= = < or ==, >= = > or ==, gt = not le, lt = not ge
   R-C13-kernel         compare_values: same-type arms only, operand order, cross-type => NotComparable
-  R-C13-eq-routes      compare_eq: which mechanism decides each of the 12x12 variant pairs
+  R-C13-eq-routes      compare_eq: which mechanism decides each of the 12x12 variant pairs; map equality is order-insensitive; no evaluator
+                       function keys a hash collection by document values (Hash disagrees with compare_eq) outside a reviewed table
   R-C13-ranges         is_within table over the inclusive bits; parse_range bracket -> bit, bound -> field
 """
+import re
 from engine import ai, mirlib as M
 
 ORD = "std::cmp::Ordering"
@@ -506,8 +508,59 @@ def map_equality(ctx, cr):
            sample={"compares": [str(a) for a, l in kinds]})
 
 
+HASH_KEYED_REVIEWED = {
+    # function -> why a hash-keyed collection over document values cannot change a verdict there
+    "rules::eval::report_at_least_one": "groups the per-rhs comparison results of ONE clause by their lhs value for the record; equal lhs values have equal outcomes against every rhs, so merging them changes no status",
+}
+
+
+def membership_by_equality(ctx, cr):
+    """`X in [..]`, `==` on lists and the reverse diffs decide membership with the documented equality (compare_eq / PartialEq: a string
+    matches a regex, maps are equal irrespective of key order).  `Hash for PathAwareValue` does not agree with that equality (a regex
+    hashes like a string with the same text but equals many strings; map hashing follows key order), so a HashSet / HashMap / IndexSet
+    keyed by document values silently changes which elements are "contained".  No function of the evaluator may key a hash collection
+    by PathAwareValue, except the reviewed ones above."""
+    rule = "R-C13-eq-routes"
+    users = {}
+    n_fns = 0
+    for k, f in sorted(cr.fns.items()):
+        if f.get("file", "").endswith("_tests.rs") or "::tests::" in k or not (k.startswith("rules::") or k.startswith("<rules::")):
+            continue
+        n_fns += 1
+        for bi, t in M.iter_calls(f):
+            p = M.norm_path(t["fn"].get("path", ""))
+            if not any(x in p for x in ("HashSet", "HashMap", "IndexSet", "IndexMap", "hash_map::", "hash_set::", "BTreeSet", "BTreeMap")):
+                continue
+            ga = t["fn"].get("ga", [])
+            keyty = cr.ty_str(ga[0]) if ga and isinstance(ga[0], int) else ""
+            # collect::<HashSet<_>>() and friends: the collection type is the first generic argument
+            m_ = re.match(r"(?:&(?:mut )?)*(?:std::collections::|indexmap::)?(?:hash_map::|hash_set::)?(HashSet|HashMap|IndexSet|IndexMap)<(.*)", keyty)
+            if m_:
+                keyty = m_.group(2).split(",")[0]
+            if "PathAwareValue" in keyty.split(",")[0] and "String" not in keyty.split(",")[0].split("PathAwareValue")[0]:
+                owner = k.split("::{closure")[0]
+                users.setdefault(owner, set()).add((p.split("::")[-1], t.get("ln")))
+        # collect() into a hash set of values
+        for bi, t in M.iter_calls(f):
+            if M.norm_path(t["fn"].get("decl", "")) in ("std::iter::Iterator::collect", "std::iter::FromIterator::from_iter"):
+                ty, _ = M.place_ty(cr, None, t["dest"], f)
+                tys = cr.ty_str(ty.idx) if ty is not None and hasattr(ty, "idx") else ""
+                m_ = re.match(r"(?:std::collections::|indexmap::)?(HashSet|HashMap|IndexSet)<([^,>]*)", tys)
+                if m_ and "PathAwareValue" in m_.group(2):
+                    users.setdefault(k.split("::{closure")[0], set()).add(("collect", t.get("ln")))
+    for owner, uses in sorted(users.items()):
+        why = HASH_KEYED_REVIEWED.get(owner)
+        ctx.ob(rule, "%s:hash-keyed-by-value:%s" % (rule, owner), why is not None,
+               ("reviewed: " + why) if why else "%s keys a hash collection by document values (%s): membership is then decided by Hash, which disagrees with compare_eq for regexes and maps" % (
+                   owner.split("::")[-1], sorted(u[0] for u in uses)), fn=cr.fns.get(owner), line=min((u[1] or 0) for u in uses))
+    ctx.note_analysed("hash_keyed_by_value", sorted(users))
+    ctx.ob(rule, rule + ":hash-keyed-by-value:coverage", n_fns >= 300 and "rules::eval::report_at_least_one" in users,
+           "%d evaluator functions scanned; the reviewed use in report_at_least_one is seen (%s)" % (n_fns, "rules::eval::report_at_least_one" in users))
+
+
 def run(ctx):
     cr = ctx.lib
+    membership_by_equality(ctx, cr)
     order_tables(ctx, cr)
     kernel(ctx, cr)
     eq_routes(ctx, cr)
